@@ -60,10 +60,29 @@ Classify(p, ln, c1, c2, what) ==
                  IF unrest # {} THEN V(c2 \o ".unrestored", ln, <<what, "keys", unrest, "committed", {r \in db : r[1] \in unrest}, "found", {r \in T : r[1] \in unrest}>>) ELSE <<>>)
              \o (IF phantom = {} /\ lostK2 = {} THEN V(c2 \o ".partial", ln, <<what, "found", T, "committed", db>>) ELSE <<>>))
 
+(* a leaf observation goes on: the restarted engine committed one more row (key 999999), crashed, and was started     *)
+(* once more on what it left behind: the tables are the same (recovery repeated) and the row committed in between is   *)
+(* there (a commit after an - interrupted - recovery is as durable as any other)                                        *)
+Again(p, ln, c, what) ==
+  IF ~Has(p, "again") THEN <<>>
+  ELSE IF p.again.restart # "ok" THEN V(c \o ".restart", ln, <<what, "next start", p.again.restart>>)
+  ELSE (IF RowsOf(p.again) # RowsOf(p) \/ Len(p.again.rows) # Len(p.rows)
+          THEN V(c \o ".repeat", ln, <<what, "first", p.rows, "next start", p.again.rows>>) ELSE <<>>)
+    \o (IF ~p.again.probe THEN V(c \o ".later", ln, <<what, "the row committed after the restart is gone at the next one">>) ELSE <<>>)
+
+(* Known finding KF-C20-crash-after-log-truncation: recovery truncates the log (GCLogFile) and only then writes the     *)
+(* records that carry the current log sequence number into the new log.  A crash between the two leaves an existing     *)
+(* database with an EMPTY log: the next launch numbers its records from 1 again, below the LSNs stamped on the pages,    *)
+(* and redo after a later crash skips them - the row committed after that launch is gone.  Signature: the nested crash  *)
+(* point whose last completed recovery I/O call is the truncation, clause C20.later only.                                *)
+KfTrunc(n, vs) == [i \in DOMAIN vs |-> IF Has(n, "afterKind") /\ n.afterKind = "GC" /\ vs[i].tag = "C20.later"
+                                         THEN [vs[i] EXCEPT !.kf = "KF-C20-crash-after-log-truncation"] ELSE vs[i]]
 RECURSIVE NestedChecks(_, _, _)
 NestedChecks(ns, ln, i) ==
   IF i > Len(ns) THEN <<>>
-  ELSE Classify(ns[i], ln, "C20", "C20", <<"crash inside recovery after its I/O call", ns[i].after>>) \o NestedChecks(ns, ln, i + 1)
+  ELSE Classify(ns[i], ln, "C20", "C20", <<"crash inside recovery after its I/O call", ns[i].after>>)
+       \o KfTrunc(ns[i], Again(ns[i], ln, "C20", <<"crash inside recovery after its I/O call", ns[i].after>>))
+       \o NestedChecks(ns, ln, i + 1)
 (* Known finding KF-C01-torn-page-inside-file: a page write that is torn INSIDE the db file (it does not extend the  *)
 (* file; here: into a hole left by an earlier write of a higher page) leaves a page whose header and page LSN are new *)
 (* and whose row bytes are old / zero.  The read is not short, nothing marks the page as incomplete, recovery trusts  *)
@@ -74,13 +93,16 @@ RECURSIVE TornChecks(_, _, _)
 TornChecks(ts, ln, i) ==
   IF i > Len(ts) THEN <<>>
   ELSE (IF ts[i].cut < 0
-          THEN KfTorn(Classify(ts[i], ln, "C01", "C02", <<"crash inside this page write, torn inside the file at byte", -ts[i].cut>>))
-          ELSE Classify(ts[i], ln, "C01", "C02", <<"crash inside this write, torn at byte", ts[i].cut>>))
+          THEN KfTorn(Classify(ts[i], ln, "C01", "C02", <<"crash inside this page write, torn inside the file at byte", -ts[i].cut>>)
+                      \o Again(ts[i], ln, "C01", <<"crash inside this page write, torn inside the file at byte", -ts[i].cut>>))
+          ELSE Classify(ts[i], ln, "C01", "C02", <<"crash inside this write, torn at byte", ts[i].cut>>)
+               \o Again(ts[i], ln, "C01", <<"crash inside this write, torn at byte", ts[i].cut>>))
        \o TornChecks(ts, ln, i + 1)
 
 ProbeChecks(e, ln) ==
   IF ~Has(e, "probe") THEN <<>>
   ELSE Classify(e.probe, ln, "C01", "C02", <<"crash after I/O call", e.io>>)
+       \o Again(e.probe, ln, "C01", <<"crash after I/O call", e.io>>)
        \o NestedChecks(e.probe.nested, ln, 1)
        \o (IF Has(e, "torn") THEN TornChecks(e.torn, ln, 1) ELSE <<>>)
 
@@ -107,7 +129,7 @@ TNext ==
      CASE e.ev = "Reset" -> /\ db' = {} /\ pend' = <<>> /\ st' = <<>> /\ owner' = <<>> /\ tid' = <<>>
                             /\ durMax' = -1 /\ durCommit' = {} /\ lastLsn' = <<>> /\ UNCHANGED viol
                             /\ durNew' = {} /\ writers' = {} /\ early' = {}
-       [] e.ev \in {"Ddl", "CkptStart", "CkptRet", "End", "StmtFail"} -> Stut /\ viol' = (IF e.ev = "StmtFail" THEN AddViol(viol, V("C01.refuse", l, <<e.res, e.sql>>)) ELSE viol)
+       [] e.ev \in {"Ddl", "ProbeFrom", "CkptStart", "CkptRet", "End", "StmtFail"} -> Stut /\ viol' = (IF e.ev = "StmtFail" THEN AddViol(viol, V("C01.refuse", l, <<e.res, e.sql>>)) ELSE viol)
        [] e.ev = "Begin" -> Begin(e.t, e.tid) /\ UNCHANGED viol
        [] e.ev = "Write" -> Write(e.t, [op |-> e.op, k |-> e.k, v |-> e.v]) /\ UNCHANGED viol
        [] e.ev = "CommitStart" -> CommitStart(e.t) /\ UNCHANGED viol
